@@ -27,7 +27,11 @@ def save_load(m):
 def assign_sets(rnd, tier):
     out = [np.array([[0, 0, 1, 1, 2, 2, 0, 1, 2, 0], [2, 1, 0, 0, 1, 2, 2, 1, 0, 2]]),
            np.array([[0, 1, 2, 1, 0, 1], [2, 0, 0, 2, 1, 1]]),
-           np.array([[0, 1, 0, 1, 2, 3, 2, 3, 0, 2, 1, 3], [3, 2, 1, 0, 3, 1, 2, 0, 0, 3, 3, 1]])]
+           np.array([[0, 1, 0, 1, 2, 3, 2, 3, 0, 2, 1, 3], [3, 2, 1, 0, 3, 1, 2, 0, 0, 3, 3, 1]]),
+           # disconnected data in which every state still has a transition in and a transition out: two trajectories in disjoint
+           # state sets; one basin left for good for another (trimming must keep the heaviest strongly connected set only)
+           np.array([[0, 1, 2, 0, 1, 2, 0, 2, 1, 0, 1, 2], [3, 4, 3, 4, 4, 3, 3, 4, 3, 4, 3, 3]]),
+           np.array([[0, 1, 0, 1, 0, 1, 0, 2, 3, 2, 3, 2], [0, 1, 1, 0, 0, 1, 0, 1, 0, 1, 0, 1]])]
     for _ in range(4 if tier == 'quick' else 30):
         ns = rnd.choice([3, 4])
         ln = rnd.choice([12, 20])
